@@ -97,6 +97,12 @@ Proof. reflexivity. Qed.
 Lemma lookup_setdmode p m f q : lookup (set_dmode p m f) q = lookup f q.
 Proof. reflexivity. Qed.
 
+Lemma lookup_setfstamp i t f q : lookup (set_fstamp i t f) q = lookup f q.
+Proof. reflexivity. Qed.
+
+Lemma lookup_setdstamp p t f q : lookup (set_dstamp p t f) q = lookup f q.
+Proof. reflexivity. Qed.
+
 (* ---------- the invariant ---------- *)
 
 Record Inv (wd : path) (f : fsys) : Prop := mkInv {
@@ -185,6 +191,21 @@ Proof.
     pose proof (inv_ino _ _ I p q i L E Hin). congruence.
 Qed.
 
+Lemma keeps_setfstamp wd f i t p :
+  Inv wd f -> inside wd p = true -> lookup f p = Some (NFile i) -> Keeps wd f (set_fstamp i t f).
+Proof.
+  intros I Hin L. split.
+  - constructor.
+    + exact (inv_wd _ _ I).
+    + exact (inv_ino _ _ I).
+    + exact (inv_fresh _ _ I).
+  - intros q Hq. unfold view_at. rewrite lookup_setfstamp.
+    destruct (lookup f q) as [[|j|]|] eqn:E; try reflexivity.
+    f_equal. unfold file_stamp, set_fstamp; simpl. destruct (Nat.eqb i j) eqn:E2; [|reflexivity].
+    apply Nat.eqb_eq in E2. subst j.
+    pose proof (inv_ino _ _ I p q i L E Hin). congruence.
+Qed.
+
 Lemma keeps_newfile wd f p c : Inv wd f -> sinside wd p -> Keeps wd f (new_file p c f).
 Proof.
   intros I Hp. pose proof (sinside_inside _ _ Hp) as Hin. split.
@@ -216,6 +237,18 @@ Proof.
   - intros q Hq. unfold view_at. rewrite lookup_setdmode.
     destruct (lookup f q) as [[|j|]|]; try reflexivity.
     unfold dir_mode, set_dmode; simpl. rewrite (outside_neq _ _ _ Hin Hq). reflexivity.
+Qed.
+
+Lemma keeps_setdstamp wd f p t : Inv wd f -> inside wd p = true -> Keeps wd f (set_dstamp p t f).
+Proof.
+  intros I Hin. split.
+  - constructor.
+    + exact (inv_wd _ _ I).
+    + exact (inv_ino _ _ I).
+    + exact (inv_fresh _ _ I).
+  - intros q Hq. unfold view_at. rewrite lookup_setdstamp.
+    destruct (lookup f q) as [[|j|]|]; try reflexivity.
+    unfold dir_stamp, set_dstamp; simpl. rewrite (outside_neq _ _ _ Hin Hq). reflexivity.
 Qed.
 
 Lemma keeps_newdir wd f p m : Inv wd f -> sinside wd p -> Keeps wd f (new_dir p m f).
@@ -742,26 +775,26 @@ Qed.
 Lemma RealD_same f f' dp : (forall q, lookup f' q = lookup f q) -> RealD f [] dp -> RealD f' [] dp.
 Proof. intros S H q r E Hq. rewrite S. apply (H q r E Hq). Qed.
 
-Lemma extract_entry_keeps wd pres cwd dp dirName f e f' :
+Lemma extract_entry_core_keeps wd pres cwd dp dirName f e f' :
   Inv wd f -> inside wd dp = true -> RealD f [] dp ->
-  extract_entry cfg_fixed pres cwd dp dirName f e = Some f' ->
-  Keeps wd f f' /\ RealD f' [] dp.
+  extract_entry_core cfg_fixed pres cwd dp dirName f e = Some f' ->
+  exists rel, entry_rel dp dirName (entry_name e) = Some rel /\
+              Keeps wd f f' /\ RealD f' [] dp /\ lexreal f' [] (dp ++ rel) = true.
 Proof.
-  intros I Hd HR H. unfold extract_entry, resolve_rel in H. cbn [fixR fixN fixW cfg_fixed] in H.
+  intros I Hd HR H. unfold extract_entry_core, resolve_rel in H. cbn [fixR fixN fixW cfg_fixed] in H.
   destruct (entry_rel dp dirName (entry_name e)) as [rel|] eqn:ER; [|discriminate].
+  exists rel. split; [reflexivity|].
   destruct (parents_ok f dp rel) eqn:PO; [|discriminate].
   assert (Hfp : inside wd (dp ++ rel) = true) by now apply inside_app.
   assert (HL : lexreal f [] (dp ++ rel) = true).
   { apply RealD_lexreal; [exact HR | now apply parents_ok_lexreal]. }
-  assert (Hat : forall g, rel <> [] -> Keeps wd f g -> only_at f g (dp ++ rel) -> Keeps wd f g /\ RealD g [] dp).
-  { intros g Hr K O. split; [exact K|]. eapply RealD_only_below; [exact HR|]. eapply only_at_below; eauto. }
+  assert (Hat : forall g, rel <> [] -> Keeps wd f g -> only_at f g (dp ++ rel) ->
+                Keeps wd f g /\ RealD g [] dp /\ lexreal g [] (dp ++ rel) = true).
+  { intros g Hr K O. split; [exact K|]. split; [|rewrite (lexreal_only_at _ _ _ O); exact HL].
+    eapply RealD_only_below; [exact HR|]. eapply only_at_below; eauto. }
   destruct e as [nm c mo|nm mo|nm tgt|nm tgt|nm]; cbn [entry_name] in *.
   - (* regular file *)
-    destruct rel as [|r0 rel'].
-    + rewrite app_nil_r in H.
-      destruct (unlink_if_symlink f dp) as [f0|] eqn:U; [|discriminate].
-      apply (unlink_if_real _ _ _ HR) in U. subst f0.
-      rewrite (write_at_real f dp c mo HR) in H. discriminate.
+    destruct rel as [|r0 rel']; [discriminate|].
     + set (rel := r0 :: rel') in *. set (fp := dp ++ rel) in *.
       destruct (unlink_if_symlink f fp) as [f0|] eqn:U; [|discriminate].
       destruct (unlink_if_lex wd fp f f0 I Hfp HL U) as (K0 & O0 & N0).
@@ -784,8 +817,11 @@ Proof.
     destruct (mkdir_real_lex wd mo rel dp f f1 I Hd HR M) as (K1 & R1 & O1).
     destruct pres.
     + destruct (chmod_at_real wd (dp ++ rel) mo f1 f' (proj1 K1) Hfp R1 H) as (K2 & S2).
-      split; [eapply Keeps_trans; eauto|]. apply (RealD_same f1); [exact S2|]. eapply RealD_prefix; eauto.
-    + injection H as <-. split; [exact K1 | eapply RealD_prefix; eauto].
+      split; [eapply Keeps_trans; eauto|].
+      assert (R2 : RealD f' [] (dp ++ rel)) by (apply (RealD_same f1); assumption).
+      split; [eapply RealD_prefix; eauto|]. rewrite <- (app_nil_r (dp ++ rel)). now apply RealD_lexreal.
+    + injection H as <-. split; [exact K1|]. split; [eapply RealD_prefix; eauto|].
+      rewrite <- (app_nil_r (dp ++ rel)). now apply RealD_lexreal.
   - (* hard link *)
     destruct rel as [|r0 rel']; [discriminate|]. set (rel := r0 :: rel') in *.
     destruct (ensure_link f dp (dp ++ rel) tgt) as [pn|] eqn:EL; [|discriminate].
@@ -800,7 +836,41 @@ Proof.
     unfold sym_node in H.
     destruct (do_symlink_lex wd (dp ++ rel) _ _ _ f f' I Hs HL H) as [K O].
     apply Hat; [discriminate | exact K | exact O].
-  - injection H as <-. split; [now apply Keeps_refl | exact HR].
+  - injection H as <-. split; [now apply Keeps_refl|]. split; [exact HR | exact HL].
+Qed.
+
+(* os.Chtimes after the entry: never through a link, so at the lexical location *)
+Lemma touch_keeps wd fp t f :
+  Inv wd f -> inside wd fp = true -> lexreal f [] fp = true ->
+  Keeps wd f (touch cfg_fixed f fp t) /\ (forall q, lookup (touch cfg_fixed f fp t) q = lookup f q).
+Proof.
+  intros I Hin HL. unfold touch. cbn [fixT cfg_fixed].
+  assert (Hch : (forall d a cs, lookup f fp <> Some (NSym d a cs)) ->
+                Keeps wd f (chtimes_at f fp t) /\ (forall q, lookup (chtimes_at f fp t) q = lookup f q)).
+  { intro Hns. unfold chtimes_at. destruct t as [|tp]; [split; [now apply Keeps_refl | reflexivity]|].
+    unfold awalk.
+    pose proof (walk_lex f fp FUEL NLINK [] true HL (fun _ => Hns)) as Wl.
+    pose proof (walk_lookup f FUEL NLINK [] (Nms fp) true) as Wk.
+    destruct (walk FUEL f NLINK [] (Nms fp) true); try (split; [now apply Keeps_refl | reflexivity]);
+      simpl in Wl; subst p.
+    - split; [now apply keeps_setdstamp | reflexivity].
+    - destruct Wk as [L _]. split; [eapply keeps_setfstamp; eauto | reflexivity]. }
+  destruct (lookup f fp) as [[|i|d a cs]|] eqn:L; try (apply Hch; intros; discriminate).
+  split; [now apply Keeps_refl | reflexivity].
+Qed.
+
+Lemma extract_entry_keeps wd pres cwd dp dirName f e t f' :
+  Inv wd f -> inside wd dp = true -> RealD f [] dp ->
+  extract_entry cfg_fixed pres cwd dp dirName f e t = Some f' ->
+  Keeps wd f f' /\ RealD f' [] dp.
+Proof.
+  intros I Hd HR H. unfold extract_entry in H.
+  destruct (extract_entry_core cfg_fixed pres cwd dp dirName f e) as [f1|] eqn:C; [|discriminate].
+  destruct (extract_entry_core_keeps _ _ _ _ _ _ _ _ I Hd HR C) as (rel & ER & K1 & R1 & L1).
+  assert (Ht : Keeps wd f (touch cfg_fixed f1 (dp ++ rel) t) /\ RealD (touch cfg_fixed f1 (dp ++ rel) t) [] dp).
+  { destruct (touch_keeps wd (dp ++ rel) t f1 (proj1 K1) (inside_app _ _ _ Hd) L1) as [K2 S2].
+    split; [eapply Keeps_trans; eauto | apply (RealD_same f1); assumption]. }
+  destruct e; cbn [entry_name] in *; try rewrite ER in H; injection H as <-; try exact Ht. split; assumption.
 Qed.
 
 Lemma narrow_base_keeps wd dp m f f' :
@@ -813,19 +883,19 @@ Proof.
   apply (chmod_at_real wd dp _ f f' I Hd HR H).
 Qed.
 
-Lemma extract_keeps wd pres cwd dp dirName : forall es f f' ok base,
+Lemma extract_keeps wd pres cwd dp dirName : forall es f f' ok ts base,
   Inv wd f -> inside wd dp = true -> RealD f [] dp ->
-  extract cfg_fixed pres cwd dp dirName f es base = (f', ok) ->
+  extract cfg_fixed pres cwd dp dirName f es ts base = (f', ok) ->
   Keeps wd f f'.
 Proof.
-  induction es as [|e es IH]; intros f f' ok base I Hd HR H.
+  induction es as [|e es IH]; intros f f' ok ts base I Hd HR H.
   - cbn [extract] in H. destruct base as [m|]; [|injection H as <- _; now apply Keeps_refl].
     destruct pres; [injection H as <- _; now apply Keeps_refl|].
     destruct (narrow_base f dp m) as [f1|] eqn:N; injection H as <- _; [|now apply Keeps_refl].
     eapply narrow_base_keeps; eauto.
   - cbn [extract] in H.
-    destruct (extract_entry cfg_fixed pres cwd dp dirName f e) as [f1|] eqn:E.
-    + destruct (extract_entry_keeps _ _ _ _ _ _ _ _ I Hd HR E) as [K1 HR1].
+    destruct (extract_entry cfg_fixed pres cwd dp dirName f e (hd 0%N ts)) as [f1|] eqn:E.
+    + destruct (extract_entry_keeps _ _ _ _ _ _ _ _ _ I Hd HR E) as [K1 HR1].
       eapply Keeps_trans; [exact K1|]. eapply IH; eauto. exact (proj1 K1).
     + injection H as <- _. now apply Keeps_refl.
 Qed.
@@ -863,7 +933,8 @@ Lemma push_keeps wd pres cwd s o s' ok :
 Proof.
   intros I H. unfold push in H.
   destruct (push_title o) as [|t0 tt] eqn:ET.
-  { injection H as <- _. now apply Keeps_refl. }
+  { destruct o as [t c|t ts es]; [|injection H as <- _; now apply Keeps_refl].
+    destruct (existsb (str_eqb [0%N; c]) (st_names s)); injection H as <- _; now apply Keeps_refl. }
   rewrite <- ET in H.
   destruct (existsb (str_eqb (push_title o)) (st_names s)).
   { injection H as <- _. now apply Keeps_refl. }
@@ -876,23 +947,38 @@ Proof.
   destruct Hraw as (cl & -> & Hcl).
   cbn [fixN fixW cfg_fixed] in H.
   pose proof (RealD_inv _ _ I) as HRwd.
-  destruct o as [t c|t es]; cbn [push_title] in *.
+  destruct o as [t c|t ts es]; cbn [push_title] in *.
   - rewrite removelast_Nms, !clean_abs_names in H.
     destruct (strip_prefix wd (removelast cl)) as [rel|] eqn:SP.
     + apply strip_prefix_spec in SP.
+      destruct (mkdir_all (st_fs s) (Nms wd) 511) as [f0|] eqn:M0.
+      2:{ injection H as <- _. now apply Keeps_refl. }
+      unfold mkdir_all in M0. apply (mkdir_prefixes_noop (st_fs s) 511 wd [] f0 HRwd) in M0. subst f0.
       destruct (mkdir_real (st_fs s) wd rel 511) as [f1|] eqn:M.
       2:{ injection H as <- _. now apply Keeps_refl. }
       destruct (mkdir_real_lex wd 511 rel wd _ f1 I (inside_refl wd) HRwd M) as (K1 & R1 & _).
       rewrite <- SP in R1.
       pose proof (lexreal_of_parent _ _ R1) as HL1.
+      destruct (path_eqb cl wd) eqn:Hclwd; cbn [negb andb] in H.
+      { (* the title denotes the working directory itself: os.Create fails on the directory *)
+        apply path_eqb_spec in Hclwd. subst cl.
+        rewrite (write_at_real f1 wd c 438 (RealD_inv _ _ (proj1 K1))) in H. injection H as <- _. exact K1. }
       destruct (unlink_if_symlink f1 cl) as [f1'|] eqn:U.
       2:{ injection H as <- _. exact K1. }
       destruct (unlink_if_lex wd cl f1 f1' (proj1 K1) Hcl HL1 U) as (K2 & O2 & N2).
       assert (K12 : Keeps wd (st_fs s) f1') by (eapply Keeps_trans; eauto).
       assert (HL2 : lexreal f1' [] cl = true) by (rewrite (lexreal_only_at _ _ _ O2); exact HL1).
       destruct (write_at f1' (Nms cl) c 438) as [f2|] eqn:Wr.
-      * injection H as <- _. simpl.
-        destruct (write_at_lex wd cl c 438 f1' f2 (proj1 K2) Hcl HL2 N2 Wr) as (K3 & _).
+      * destruct (write_at_lex wd cl c 438 f1' f2 (proj1 K2) Hcl HL2 N2 Wr) as (K3 & O3 & (i3 & L3)).
+        assert (K13 : Keeps wd (st_fs s) f2) by (eapply Keeps_trans; eauto).
+        destruct c as [|cp]; [|injection H as <- _; exact K13].
+        destruct (remove_at f2 cl) as [f3|] eqn:Rm; injection H as <- _; [|exact K13]. simpl.
+        assert (Hne : cl <> []).
+        { intros ->. rewrite (write_at_real f1' [] 0%N 438) in Wr; [discriminate|].
+          intros q r E Hq. destruct q; [contradiction | discriminate]. }
+        assert (Hs : sinside wd cl) by (eapply inside_sinside; [exact (proj1 K3) | exact Hcl | exact Hne | rewrite L3; discriminate]).
+        assert (HL3 : lexreal f2 [] cl = true) by (rewrite (lexreal_only_at _ _ _ O3); exact HL2).
+        destruct (remove_at_lex wd cl f2 f3 (proj1 K3) Hs HL3 Rm) as [_ K4].
         eapply Keeps_trans; eauto.
       * injection H as <- _. exact K12.
     + destruct (parent_outside wd cl Hcl SP) as [-> Hwd].
@@ -902,19 +988,20 @@ Proof.
       2:{ injection H as <- _. now apply Keeps_refl. }
       unfold mkdir_all in M.
       apply (mkdir_prefixes_noop (st_fs s) 511 (removelast wd) [] f1 HRp) in M. subst f1.
-      destruct (unlink_if_symlink (st_fs s) wd) as [f1'|] eqn:U.
-      2:{ injection H as <- _. now apply Keeps_refl. }
-      apply (unlink_if_real _ _ _ HRwd) in U. subst f1'.
+      rewrite path_eqb_refl in H. cbn [negb andb] in H.
       rewrite (write_at_real _ wd c 438 HRwd) in H. injection H as <- _. now apply Keeps_refl.
   - rewrite clean_abs_names in H.
     destruct (strip_prefix wd cl) as [rel|] eqn:SP.
     2:{ unfold inside in Hcl. rewrite SP in Hcl. discriminate. }
     apply strip_prefix_spec in SP.
+    destruct (mkdir_all (st_fs s) (Nms wd) 511) as [f0|] eqn:M0.
+    2:{ injection H as <- _. now apply Keeps_refl. }
+    unfold mkdir_all in M0. apply (mkdir_prefixes_noop (st_fs s) 511 wd [] f0 HRwd) in M0. subst f0.
     destruct (mkdir_real (st_fs s) wd rel 511) as [f1|] eqn:M.
     2:{ injection H as <- _. now apply Keeps_refl. }
     destruct (mkdir_real_lex wd 511 rel wd _ f1 I (inside_refl wd) HRwd M) as (K1 & R1 & _).
     rewrite <- SP in R1.
-    destruct (extract cfg_fixed pres cwd cl t f1 es None) as [f2 ok2] eqn:EX.
+    destruct (extract cfg_fixed pres cwd cl t f1 es ts None) as [f2 ok2] eqn:EX.
     injection H as <- _. simpl.
     eapply Keeps_trans; [exact K1|].
     eapply extract_keeps; eauto. exact (proj1 K1).
@@ -978,20 +1065,20 @@ Qed.
 Lemma entry_outside_rejected g pres wd cwd title f e :
   inside wd (lex_loc wd title) = true ->
   inside wd (lex_loc wd (entry_name e)) = false ->
-  extract_entry g pres cwd (lex_loc wd title) title f e = None.
+  forall t, extract_entry g pres cwd (lex_loc wd title) title f e t = None.
 Proof.
-  intros Ht He. unfold extract_entry, resolve_rel.
+  intros Ht He t. unfold extract_entry, extract_entry_core, resolve_rel.
   destruct (entry_rel (lex_loc wd title) title (entry_name e)) as [ns|] eqn:E; [|reflexivity].
   apply entry_rel_inside in E. rewrite E, inside_app in He; [discriminate | exact Ht].
 Qed.
 
-Lemma extract_stops g pres cwd dp dirName e es2 : forall es1 f base,
-  (forall f0, extract_entry g pres cwd dp dirName f0 e = None) ->
-  snd (extract g pres cwd dp dirName f (es1 ++ e :: es2) base) = false.
+Lemma extract_stops g pres cwd dp dirName e es2 : forall es1 f ts base,
+  (forall f0 t, extract_entry g pres cwd dp dirName f0 e t = None) ->
+  snd (extract g pres cwd dp dirName f (es1 ++ e :: es2) ts base) = false.
 Proof.
-  induction es1 as [|e1 es1 IH]; intros f base H; cbn [app extract].
+  induction es1 as [|e1 es1 IH]; intros f ts base H; cbn [app extract].
   - now rewrite H.
-  - destruct (extract_entry g pres cwd dp dirName f e1); [now apply IH | reflexivity].
+  - destruct (extract_entry g pres cwd dp dirName f e1 (hd 0%N ts)); [now apply IH | reflexivity].
 Qed.
 
 (* ---------- a concrete tree: the hypotheses are satisfiable, the unrepaired code escapes ---------- *)
@@ -1003,7 +1090,7 @@ Definition fs0 : fsys :=
          ([b "victim"], NFile 1); ([b "c"], NDir); ([b "c"; b "secret"], NFile 2);
          ([b "r"; b "x"], NDir); ([b "r"; b "x"; b "victim"], NFile 3);
          ([b "r"; b "w"; b "old"], NFile 4) ]
-       [ (0, 100%N); (1, 101%N); (2, 102%N); (3, 103%N); (4, 104%N) ] 5 [].
+       [ (0, 100%N); (1, 101%N); (2, 102%N); (3, 103%N); (4, 104%N) ] 5 [] [] [].
 
 Lemma inv_fs0 : Inv wd0 fs0.
 Proof.
@@ -1042,44 +1129,44 @@ Ltac escape_with os p :=
 
 (* F10: hard link whose relative target is taken from the process's current directory *)
 Definition os_hardlink_cwd : list pushop :=
-  [PDir (b "t") [EHard (b "t/h") (b "secret"); EReg (b "t/h") 7%N 420%N]].
-Lemma refuted_hardlink_cwd : escapes (mkCfg false true true true true).
+  [PDir (b "t") [] [EHard (b "t/h") (b "secret"); EReg (b "t/h") 7%N 420%N]].
+Lemma refuted_hardlink_cwd : escapes (mkCfg false true true true true true).
 Proof. escape_with os_hardlink_cwd [b "c"; b "secret"]. Qed.
 
 (* F11: the raw link target is lexically inside and physically outside; a regular entry (or a
    named blob) is written through the link *)
 Definition os_raw_target : list pushop :=
-  [PDir (b "t") [EDir (b "t/a/b") 493%N; ESym (b "t/a/b/s") (b "../..");
+  [PDir (b "t") [] [EDir (b "t/a/b") 493%N; ESym (b "t/a/b/s") (b "../..");
                  ESym (b "t/l") (b "a/b/s/../../../victim"); EReg (b "t/l") 7%N 420%N]].
 Definition os_raw_target_blob : list pushop :=
-  [PDir (b "t") [EDir (b "t/a/b") 493%N; ESym (b "t/a/b/s") (b "../..");
+  [PDir (b "t") [] [EDir (b "t/a/b") 493%N; ESym (b "t/a/b/s") (b "../..");
                  ESym (b "t/l") (b "a/b/s/../../../victim")];
    PBlob (b "t/l") 7%N].
-Lemma refuted_write_through_link : escapes (mkCfg true true true true false).
+Lemma refuted_write_through_link : escapes (mkCfg true true true true false true).
 Proof. escape_with os_raw_target [b "victim"]. Qed.
-Lemma refuted_blob_through_link : escapes (mkCfg true true true true false).
+Lemma refuted_blob_through_link : escapes (mkCfg true true true true false true).
 Proof. escape_with os_raw_target_blob [b "victim"]. Qed.
 
 (* directories created / entered through a link: unpack directory reached through a link
    created by the store *)
 Definition os_title_through_link : list pushop :=
-  [PDir (b ".") [ESym (b "./x") (b ".")];
-   PDir (b "x") [ESym (b "x/l") (b "../x/victim"); EReg (b "x/l") 7%N 420%N]].
-Lemma refuted_title_through_link : escapes (mkCfg true true true false false).
+  [PDir (b ".") [] [ESym (b "./x") (b ".")];
+   PDir (b "x") [] [ESym (b "x/l") (b "../x/victim"); EReg (b "x/l") 7%N 420%N]].
+Lemma refuted_title_through_link : escapes (mkCfg true true true false false true).
 Proof. escape_with os_title_through_link [b "r"; b "x"; b "victim"]. Qed.
 
 (* named blob below a link (here a hard link to a link, which sits at another depth) *)
 Definition os_hardlink_symlink : list pushop :=
-  [PDir (b "t") [EDir (b "t/b/c") 493%N; ESym (b "t/b/c/s") (b "../.."); EHard (b "t/h") (b "b/c/s")];
+  [PDir (b "t") [] [EDir (b "t/b/c") 493%N; ESym (b "t/b/c/s") (b "../.."); EHard (b "t/h") (b "b/c/s")];
    PBlob (b "t/h/victim") 7%N].
-Lemma refuted_dir_through_link : escapes (mkCfg true true true false true).
+Lemma refuted_dir_through_link : escapes (mkCfg true true true false true true).
 Proof. escape_with os_hardlink_symlink [b "r"; b "victim"]. Qed.
 
 (* absolute title used raw: ".." after a store link *)
 Definition os_abs_title : list pushop :=
-  [PDir (b "t") [EDir (b "t/b") 493%N; ESym (b "t/b/s") (b "..")];
+  [PDir (b "t") [] [EDir (b "t/b") 493%N; ESym (b "t/b/s") (b "..")];
    PBlob (b "/r/w/t/b/s/../../../victim") 7%N].
-Lemma refuted_abs_title : escapes (mkCfg true false true true true).
+Lemma refuted_abs_title : escapes (mkCfg true false true true true true).
 Proof. escape_with os_abs_title [b "victim"]. Qed.
 
 Lemma prefix_escapes : escapes cfg_prefix.
@@ -1087,17 +1174,17 @@ Proof. escape_with os_hardlink_cwd [b "c"; b "secret"]. Qed.
 
 (* the repaired store accepts ordinary archives (hypotheses and success are not vacuous) *)
 Definition os_ordinary : list pushop :=
-  [PDir (b "t") [EDir (b "t/a/b") 493%N; EReg (b "t/a/b/f") 7%N 384%N; ESym (b "t/a/b/s") (b "../..");
+  [PDir (b "t") [] [EDir (b "t/a/b") 493%N; EReg (b "t/a/b/f") 7%N 384%N; ESym (b "t/a/b/s") (b "../..");
                  ESym (b "t/l") (b "a/b/s/../x"); EHard (b "t/h") (b "a/b/f"); EReg (b "t/h") 8%N 420%N;
                  ESym (b "t/l") (b "a/b/f"); EReg (b "t/l") 9%N 420%N; ESym (b "t/k") (b "a/b/s/../x")];
    PBlob (b "t/a/new") 10%N; PBlob (b "old") 11%N].
 
 Lemma ordinary_ok :
   snd (run0 cfg_fixed os_ordinary) = [true; true; true] /\
-  view_at (fst (run0 cfg_fixed os_ordinary)) [b "r"; b "w"; b "t"; b "a"; b "b"; b "f"] = VFile (enc 8 384) /\
-  view_at (fst (run0 cfg_fixed os_ordinary)) [b "r"; b "w"; b "t"; b "l"] = VFile (enc 9 420) /\
+  view_at (fst (run0 cfg_fixed os_ordinary)) [b "r"; b "w"; b "t"; b "a"; b "b"; b "f"] = VFile (enc 8 384) 0%N /\
+  view_at (fst (run0 cfg_fixed os_ordinary)) [b "r"; b "w"; b "t"; b "l"] = VFile (enc 9 420) 0%N /\
   view_at (fst (run0 cfg_fixed os_ordinary)) [b "r"; b "w"; b "t"; b "k"] = VSym (b "a/b/s/../x") /\
-  view_at (fst (run0 cfg_fixed os_ordinary)) [b "r"; b "w"; b "old"] = VFile (enc 11 104).
+  view_at (fst (run0 cfg_fixed os_ordinary)) [b "r"; b "w"; b "old"] = VFile (enc 11 104) 0%N.
 Proof.
   vm_compute. repeat split.
 Qed.
@@ -1112,10 +1199,10 @@ Proof.
   apply (proj2 (pushes_keeps wd0 false cwd0 os (mkStore fs0 []) s oks inv_fs0 E) p Hp).
 Qed.
 
-Lemma push_outside_entry g pres wd cwd s title es1 e es2 :
+Lemma push_outside_entry g pres wd cwd s title ts es1 e es2 :
   title <> [] ->
   inside wd (lex_loc wd (entry_name e)) = false ->
-  snd (push g pres wd cwd s (PDir title (es1 ++ e :: es2))) = false.
+  snd (push g pres wd cwd s (PDir title ts (es1 ++ e :: es2))) = false.
 Proof.
   intros Hne He. unfold push. cbn [push_title].
   destruct title as [|t0 tt] eqn:ET; [contradiction|]. rewrite <- ET in *.
@@ -1123,9 +1210,9 @@ Proof.
   destruct (write_path g wd title) as [raw|] eqn:EW; [|reflexivity].
   apply write_path_lex in EW as [Hin ->].
   match goal with |- snd (match ?m with Some _ => _ | None => _ end) = _ => destruct m as [f1|] end; [|reflexivity].
-  pose proof (extract_stops g pres cwd (lex_loc wd title) title e es2 es1 f1 None
+  pose proof (extract_stops g pres cwd (lex_loc wd title) title e es2 es1 f1 ts None
                 (fun f0 => entry_outside_rejected g pres wd cwd title f0 e Hin He)) as Hs.
-  destruct (extract g pres cwd (lex_loc wd title) title f1 (es1 ++ e :: es2) None) as [f2 ok]. simpl in *. exact Hs.
+  destruct (extract g pres cwd (lex_loc wd title) title f1 (es1 ++ e :: es2) ts None) as [f2 ok]. simpl in *. exact Hs.
 Qed.
 
 (* the working directory itself stays a real directory *)
@@ -1140,7 +1227,7 @@ Qed.
 
 (* without the last repair an archive can replace the (empty) working directory itself by a link *)
 Definition fs1 : fsys :=
-  mkFS [ ([b "r"], NDir); ([b "r"; b "w"], NDir); ([b "r"; b "victim"], NFile 0) ] [ (0, 100%N) ] 1 [].
+  mkFS [ ([b "r"], NDir); ([b "r"; b "w"], NDir); ([b "r"; b "victim"], NFile 0) ] [ (0, 100%N) ] 1 [] [] [].
 
 Lemma inv_fs1 : Inv wd0 fs1.
 Proof.
@@ -1168,10 +1255,10 @@ Proof.
            end. discriminate.
 Qed.
 
-Definition os_replace_wd : list pushop := [PDir (b ".") [ESym (b ".") (b "w/x")]].
+Definition os_replace_wd : list pushop := [PDir (b ".") [] [ESym (b ".") (b "w/x")]].
 
 Lemma refuted_replace_wd :
-  lookup (st_fs (fst (pushes (mkCfg true true false true true) false wd0 cwd0 (mkStore fs1 []) os_replace_wd))) wd0
+  lookup (st_fs (fst (pushes (mkCfg true true false true true true) false wd0 cwd0 (mkStore fs1 []) os_replace_wd))) wd0
   <> Some NDir.
 Proof. vm_compute. discriminate. Qed.
 
@@ -1181,23 +1268,120 @@ Proof. vm_compute. reflexivity. Qed.
 
 (* with PreservePermissions the unrepaired code also re-modes a directory outside *)
 Definition os_remode : list pushop :=
-  [PDir (b "t") [EDir (b "t/a/b") 493%N; ESym (b "t/a/b/s") (b "../..");
+  [PDir (b "t") [] [EDir (b "t/a/b") 493%N; ESym (b "t/a/b/s") (b "../..");
                  ESym (b "t/l") (b "a/b/s/../.."); EDir (b "t/l") 448%N]].
 
 Lemma refuted_remode :
   inside wd0 [b "r"] = false /\
-  view_at (st_fs (fst (pushes (mkCfg true true true false true) true wd0 cwd0 (mkStore fs0 []) os_remode))) [b "r"]
+  view_at (st_fs (fst (pushes (mkCfg true true true false true true) true wd0 cwd0 (mkStore fs0 []) os_remode))) [b "r"]
   <> view_at fs0 [b "r"].
 Proof. split; [vm_compute; reflexivity | vm_compute; discriminate]. Qed.
 
 (* the unpack directory is narrowed to the mode the archive records for it (no PreservePermissions);
    other modes are not touched *)
 Definition os_narrow : list pushop :=
-  [PDir (b "t") [EDir (b "t") 448%N; EDir (b "t/a") 511%N; EReg (b "t/a/f") 7%N 384%N]].
+  [PDir (b "t") [] [EDir (b "t") 448%N; EDir (b "t/a") 511%N; EReg (b "t/a/f") 7%N 384%N]].
 
 Lemma narrow_ok :
   snd (run0 cfg_fixed os_narrow) = [true] /\
-  view_at (fst (run0 cfg_fixed os_narrow)) [b "r"; b "w"; b "t"] = VDir 448%N /\
-  view_at (fst (run0 cfg_fixed os_narrow)) [b "r"; b "w"; b "t"; b "a"] = VDir 493%N /\
-  view_at (fst (run0 cfg_fixed os_narrow)) [b "r"; b "w"] = VDir 493%N.
+  view_at (fst (run0 cfg_fixed os_narrow)) [b "r"; b "w"; b "t"] = VDir 448%N 0%N /\
+  view_at (fst (run0 cfg_fixed os_narrow)) [b "r"; b "w"; b "t"; b "a"] = VDir 493%N 0%N /\
+  view_at (fst (run0 cfg_fixed os_narrow)) [b "r"; b "w"] = VDir 493%N 0%N.
 Proof. vm_compute. repeat split. Qed.
+
+(* F1 of the audit: os.Chtimes after a link entry follows the link and sets the times of a file
+   outside (the link text is raw, lexically inside, physically outside) *)
+Definition os_touch : list pushop :=
+  [PDir (b "t") [0%N; 0%N; 77%N]
+        [EDir (b "t/a/b") 493%N; ESym (b "t/a/b/s") (b "../.."); ESym (b "t/l") (b "a/b/s/../../../victim")]].
+
+Lemma refuted_touch : escapes (mkCfg true true true true true false).
+Proof. escape_with os_touch [b "victim"]. Qed.
+
+Lemma touch_fixed :
+  snd (run0 cfg_fixed os_touch) = [true] /\
+  view_at (fst (run0 cfg_fixed os_touch)) [b "victim"] = view_at fs0 [b "victim"] /\
+  view_at (fst (run0 cfg_fixed os_touch)) [b "r"; b "w"; b "t"; b "l"] = VSym (b "a/b/s/../../../victim").
+Proof. vm_compute. repeat split. Qed.
+
+(* times are set on ordinary entries *)
+Definition os_times : list pushop :=
+  [PDir (b "t") [5%N; 6%N] [EDir (b "t/a") 493%N; EReg (b "t/a/f") 7%N 420%N]].
+Lemma times_ok :
+  view_at (fst (run0 cfg_fixed os_times)) [b "r"; b "w"; b "t"; b "a"] = VDir 493%N 5%N /\
+  view_at (fst (run0 cfg_fixed os_times)) [b "r"; b "w"; b "t"; b "a"; b "f"] = VFile (enc 7 420) 6%N.
+Proof. vm_compute. repeat split. Qed.
+
+(* ---------- further rejections (audit F5) ---------- *)
+
+(* an entry whose name is not below the unpack directory (even if inside the working directory) *)
+Lemma entry_outside_unpack_dir_rejected g pres wd cwd title f e :
+  inside (lex_loc wd title) (lex_loc wd (entry_name e)) = false ->
+  forall t, extract_entry g pres cwd (lex_loc wd title) title f e t = None.
+Proof.
+  intros He t. unfold extract_entry, extract_entry_core, resolve_rel.
+  destruct (entry_rel (lex_loc wd title) title (entry_name e)) as [ns|] eqn:E; [|reflexivity].
+  apply entry_rel_inside in E. rewrite E in He.
+  rewrite (inside_app _ _ _ (inside_refl _)) in He. discriminate.
+Qed.
+
+(* a link (symbolic or hard) whose target, taken relative to the link's directory, is lexically
+   not below the unpack directory *)
+Lemma link_target_outside_rejected g pres cwd dp dirName f nm tgt rel t :
+  entry_rel dp dirName nm = Some rel ->
+  inside dp (link_abs_path (dp ++ rel) tgt) = false ->
+  extract_entry g pres cwd dp dirName f (ESym nm tgt) t = None /\
+  extract_entry g pres cwd dp dirName f (EHard nm tgt) t = None.
+Proof.
+  intros ER Ho.
+  assert (EL : ensure_link f dp (dp ++ rel) tgt = None).
+  { unfold ensure_link. unfold inside in Ho.
+    destruct (strip_prefix dp (link_abs_path (dp ++ rel) tgt)); [discriminate | reflexivity]. }
+  unfold extract_entry, extract_entry_core, resolve_rel; cbn [entry_name]. rewrite ER.
+  destruct (parents_ok f dp rel); [|split; reflexivity].
+  rewrite EL. split; destruct (match rel with [] => fixR g | _ :: _ => false end); reflexivity.
+Qed.
+
+Lemma descend_ok_link f c d a cs r : forall q cur,
+  RealD f cur q -> lookup f (cur ++ q ++ [c]) = Some (NSym d a cs) ->
+  descend_ok f cur (q ++ c :: r) = false.
+Proof.
+  induction q as [|x q IH]; intros cur HR L.
+  - simpl in *. rewrite L. reflexivity.
+  - cbn [app descend_ok]. rewrite (RealD_head _ _ _ _ HR).
+    apply IH; [apply (RealD_step _ _ _ _ HR)|]. rewrite <- app_assoc. exact L.
+Qed.
+
+(* a name whose parent chain below the unpack directory goes through a symbolic link *)
+Lemma entry_through_link_rejected g pres cwd dp dirName f e t q c r d a cs :
+  RealD f [] dp -> RealD f dp q ->
+  entry_rel dp dirName (entry_name e) = Some (q ++ c :: r) -> r <> [] ->
+  lookup f (dp ++ q ++ [c]) = Some (NSym d a cs) ->
+  extract_entry g pres cwd dp dirName f e t = None.
+Proof.
+  intros HRd HRq ER Hr L.
+  assert (PO : parents_ok f dp (q ++ c :: r) = false).
+  { unfold parents_ok.
+    assert (E : removelast (q ++ c :: r) = q ++ c :: removelast r).
+    { rewrite removelast_app by discriminate. f_equal.
+      change (c :: r) with ([c] ++ r). rewrite removelast_app by exact Hr. reflexivity. }
+    rewrite E. destruct (q ++ c :: removelast r) eqn:Eq; [destruct q; discriminate|]. rewrite <- Eq.
+    unfold awalk. pose proof (walk_real f dp FUEL NLINK [] true HRd) as W.
+    destruct (walk FUEL f NLINK [] (Nms dp) true); try contradiction; try reflexivity.
+    simpl in W. subst p. eapply descend_ok_link; eauto. }
+  unfold extract_entry, extract_entry_core, resolve_rel. rewrite ER, PO. reflexivity.
+Qed.
+
+(* audit F3: the hypothesis "files below the working directory share no inode with the outside"
+   (inv_ino) is needed: a pre-populated hard link to an outside file (cp -al, ostree-style
+   checkouts) is truncated in place by a plain named blob of the repaired store *)
+Definition fs2 : fsys :=
+  mkFS [ ([b "r"], NDir); ([b "r"; b "w"], NDir); ([b "victim"], NFile 0); ([b "r"; b "w"; b "old"], NFile 0) ]
+       [ (0, 100%N) ] 1 [] [] [].
+
+Lemma refuted_shared_inode :
+  inside wd0 [b "victim"] = false /\
+  snd (pushes cfg_fixed false wd0 cwd0 (mkStore fs2 []) [PBlob (b "old") 7%N]) = [true] /\
+  view_at (st_fs (fst (pushes cfg_fixed false wd0 cwd0 (mkStore fs2 []) [PBlob (b "old") 7%N]))) [b "victim"]
+  <> view_at fs2 [b "victim"].
+Proof. split; [vm_compute; reflexivity|]. split; [vm_compute; reflexivity | vm_compute; discriminate]. Qed.
